@@ -622,12 +622,40 @@ def run(report, index, tier):
                  'the lexer error hook can return normally: ply then '
                  'raises its own LexError', where='lexers/es5.py:%s' % name)
     perr = need_function(pm, 'p_error', 'Parser')
-    last = perr.body[-1]
-    r1.check(isinstance(last, ast.Expr) and ast.unparse(
-        last.value).startswith('self._raise_syntax_error('),
-        'p_error ends in _raise_syntax_error', 'Parser.p_error',
-        'p_error can fall off its end without raising: ply would continue '
-        'its own error recovery', where='parsers/es5.py:p_error')
+    raisers = {name for name, fd in pm.class_methods('Parser').items()
+               if always_raises(fd.body)}
+
+    def terminates(stmts):
+        """no path falls off the end of the block: it ends in a return of
+        a value, a raise, a call of a method that always raises, or a
+        branch both arms of which do"""
+        if not stmts:
+            return False
+        last = stmts[-1]
+        if isinstance(last, ast.Raise):
+            return True
+        if isinstance(last, ast.Return):
+            return last.value is not None and not (isinstance(
+                last.value, ast.Constant) and last.value.value is None)
+        if isinstance(last, ast.Expr) and isinstance(
+                last.value, ast.Call) and isinstance(
+                last.value.func, ast.Attribute) and isinstance(
+                last.value.func.value, ast.Name) and \
+                last.value.func.value.id == 'self' and \
+                last.value.func.attr in raisers:
+            return True
+        if isinstance(last, ast.If):
+            return terminates(last.body) and terminates(last.orelse)
+        if isinstance(last, ast.Try):
+            return terminates(last.finalbody) or (
+                terminates(last.body) and all(
+                    terminates(h.body) for h in last.handlers))
+        return False
+    r1.check(terminates(perr.body),
+             'p_error ends in _raise_syntax_error', 'Parser.p_error',
+             'p_error can fall off its end (or return None) without '
+             'raising: ply would continue its own error recovery',
+             where='parsers/es5.py:p_error')
     rse = need_function(pm, '_raise_syntax_error', 'Parser')
     r1.check(always_raises(rse.body), '_raise_syntax_error raises',
              'Parser._raise_syntax_error', 'may return normally',
@@ -640,13 +668,11 @@ def run(report, index, tier):
                      'only under a dominating guard', floor=8)
     linit = need_function(lm, '__init__', 'Lexer')
     none_fields = set()
-    for n in ast.walk(linit):
-        if isinstance(n, ast.Assign) and isinstance(
-                n.value, ast.Constant) and n.value.value is None:
-            for t in n.targets:
-                if isinstance(t, ast.Attribute) and isinstance(
-                        t.value, ast.Name) and t.value.id == 'self':
-                    none_fields.add(t.attr)
+    from engine.effects import self_attr_stores
+    for attr, values in self_attr_stores(linit).items():
+        if any(isinstance(v, ast.Constant) and v.value is None
+               for v in values):
+            none_fields.add(attr)
     none_fields.discard('lexer')     # set by build() inside __init__
     lmethods = lm.class_methods('Lexer')
     pmethods = pm.class_methods('Parser')
